@@ -523,6 +523,30 @@ func (l *ledger) update(pop *genetics.Population, strictNew bool, rec *Rec) erro
 				}
 			}
 		}
+		for _, cg := range o.Genotype.ControlGenes {
+			// a module's control node holds a node id (role "control") and the module an innovation number
+			id := cg.ControlNode.Id
+			if role, known := l.roles[id]; known && role != roleControl {
+				return fmt.Errorf("node id %d denotes the control node of a module in organism %d and a node of role %d elsewhere in the history", id, i, role)
+			} else if !known {
+				if strictNew && id <= prevNode {
+					return fmt.Errorf("control node id %d issued in this generation is not larger than the largest id %d the population held before", id, prevNode)
+				}
+				l.roles[id] = roleControl
+				if id > l.maxNode {
+					l.maxNode = id
+				}
+			}
+			k := [3]int{id, -1, 2}
+			if old, known := l.genes[cg.InnovationNum]; known && old != k {
+				return fmt.Errorf("innovation %d denotes the module with control node %d in organism %d but %d->%d rec=%d elsewhere in the history", cg.InnovationNum, id, i, old[0], old[1], old[2])
+			} else if !known {
+				l.genes[cg.InnovationNum] = k
+				if cg.InnovationNum > l.maxInnov {
+					l.maxInnov = cg.InnovationNum
+				}
+			}
+		}
 		for _, g := range o.Genotype.Genes {
 			k := [3]int{g.Link.InNode.Id, g.Link.OutNode.Id, b2i(g.Link.IsRecurrent)}
 			old, known := l.genes[g.InnovationNum]
